@@ -211,7 +211,7 @@ def run_case(case):
 
     def body(driver):
         plugin.reset()
-        driver.build_xlsx(sut_spec, stored)
+        driver.build_xlsx(sut_spec, stored, strict=False)
         if kind == 'boom':
             plugin.arm('F', exc='RuntimeError', at=1, persistent=True)
         model = driver.model
